@@ -1,0 +1,7 @@
+//go:build !verif
+// +build !verif
+
+package main
+
+// verifTrace is a no-op unless the program is built with the tag `verif` (see verif_trace_on.go).
+func verifTrace(event string, args ...int) {}
